@@ -1139,7 +1139,11 @@ func (d *DNSFilter) updatesLoop() {
 func (d *DNSFilter) periodicallyRefreshFilters(ivl time.Duration) (nextIvl time.Duration) {
 	const maxInterval = time.Hour
 
-	if d.conf.FiltersUpdateIntervalHours == 0 {
+	d.conf.filtersMu.RLock()
+	isDisabled := d.conf.FiltersUpdateIntervalHours == 0
+	d.conf.filtersMu.RUnlock()
+
+	if isDisabled {
 		return ivl
 	}
 
